@@ -279,6 +279,7 @@ func vfC09Case(rt *rapid.T, c *ev.Collector) {
 	var hist []string
 	seedDelivered := !withhold
 	largeWrite := false
+	peerSeed := false
 	for i := 0; i < nw; i++ {
 		if withhold && !seedDelivered && (i == nw-1 || rapid.Bool().Draw(rt, "deliverSeedNow")) {
 			s.N.Inject(s.RefSide, s.HeldSeedFrame)
@@ -288,6 +289,25 @@ func vfC09Case(rt *rapid.T, c *ev.Collector) {
 			}
 			seedDelivered = true
 			hist = append(hist, "seed-frame-delivered")
+		}
+		if rapid.IntRange(0, 3).Draw(rt, "peerSendsSeedPacket") == 0 && (!realIsClient || seedDelivered) {
+			// The peer sends a PRNG-seed packet of its own (well-formed: 24 bytes; or
+			// 23 / 25 bytes).  A bridge never takes its shaping from a client, and a
+			// client that has the bridge's seed ... is told a new one by the BRIDGE
+			// only; here: a client-sent one must leave the bridge's tables untouched.
+			if !realIsClient {
+				pl := detrand.Bytes(rapid.Uint64().Draw(rt, "peerSeed"), rapid.SampledFrom([]int{24, 24, 24, 23, 25, 0}).Draw(rt, "peerSeedLen"))
+				s.N.Inject(s.RefSide, s.Enc.Frame(refobfs4.PktSeed, pl, rapid.SampledFrom([]int{0, 0, 7}).Draw(rt, "peerSeedPad")))
+				s.N.ReleaseAll(s.RefSide)
+				if err := s.N.WaitQuiescent(s.RealSide); err != nil {
+					rt.Fatalf("VIOL[c09-wedge]: %v", err)
+				}
+				if rerr := s.Ep.ReadErr(); rerr != nil {
+					rt.Fatalf("VIOL[c09-session]: bridge Read failed on a client-sent seed packet of %d bytes: %v", len(pl), rerr)
+				}
+				hist = append(hist, fmt.Sprintf("client-sends-seed-packet(%d)", len(pl)))
+				peerSeed = true
+			}
 		}
 		table := vfDistValues(oc.lenDist)
 		if realIsClient && seedDelivered {
@@ -426,6 +446,9 @@ func vfC09Case(rt *rapid.T, c *ev.Collector) {
 	if largeWrite {
 		cls = append(cls, "write-larger-than-6000")
 	}
+	if peerSeed {
+		cls = append(cls, "client-sent-seed-packet-to-bridge")
+	}
 	nt := len(serverTable) <= 3 || vfContains(serverTable, 0) || vfContains(serverTable, vfSeg) || needSmall
 	if needSmall {
 		cls = append(cls, "padding-need-1..21")
@@ -438,10 +461,11 @@ func vfC09Case(rt *rapid.T, c *ev.Collector) {
 func TestVerifC09EndToEnd(t *testing.T) {
 	vfSetup(t)
 	c := ev.For("C09")
-	c.Rule("end-to-end: real client or real server (public factories) against the reference peer; generated seed (uniform, or pre-searched: table contains 0 / contains 1448 / has <= 3 entries / has one entry), IAT mode, bias flag, 1-5 writes of 0..6000 bytes (iat-mode 0: one in six up to 300000 bytes, incl. 32768 / 65536 / 131072 and neighbours); the live length table of the connection is read by reflection before each write; oracle on the logged wire writes: mode 0 one write per burst whose length is explained by some table value under the padding arithmetic, mode 1 additionally segments of exactly 1448 except the last, mode 2 every write is a non-zero table value (1448 when 0 is in the table); the reference peer opens every frame (<= 1448, payload intact); a client uses the server's table once the seed frame has been processed (half of the client cases withhold the seed frame first); Write returns without panic; non-trivial = table with <= 3 entries or containing 0 or 1448, or a padding need of 1..21; fingerprint = seed, mode, sizes, randomness key")
+	c.Rule("end-to-end: real client or real server (public factories) against the reference peer; generated seed (uniform, or pre-searched: table contains 0 / contains 1448 / has <= 3 entries / has one entry), IAT mode, bias flag, 1-5 writes of 0..6000 bytes (iat-mode 0: one in six up to 300000 bytes, incl. 32768 / 65536 / 131072 and neighbours); the live length table of the connection is read by reflection before each write; oracle on the logged wire writes: mode 0 one write per burst whose length is explained by some table value under the padding arithmetic, mode 1 additionally segments of exactly 1448 except the last, mode 2 every write is a non-zero table value (1448 when 0 is in the table); the reference peer opens every frame (<= 1448, payload intact); a client uses the server's table once the seed frame has been processed (half of the client cases withhold the seed frame first); a bridge keeps its own table when the client sends it a PRNG-seed packet (24 bytes, or 0 / 23 / 25); Write returns without panic; non-trivial = table with <= 3 entries or containing 0 or 1448, or a padding need of 1..21; fingerprint = seed, mode, sizes, randomness key")
 	c.Floor("seed-has0/e2e", 0.15)
 	c.Floor("iat-2/e2e", 0.15)
 	c.Floor("iat-1/e2e", 0.10)
+	c.Floor("client-sent-seed-packet-to-bridge/e2e", 0.05)
 	rapid.Check(t, func(rt *rapid.T) { vfC09Case(rt, c) })
 }
 
